@@ -59,7 +59,7 @@ pub fn c19(log: &mut Log, seed: u64, tier: &str, fst_bin: &str, work: &str) {
         let dupfree = conf % 3 == 0;
         let n = *pick(&mut r, &[0usize, 1, 2, 3, 5, 8, 12, 20]);
         let nkeys = if dupfree { std::cmp::max(n, 1) } else { *pick(&mut r, &[1usize, 2, 3, 6]) };
-        let rows = gen_rows(&mut r, n, nkeys, dupfree, !is_set && conf % 5 == 0);
+        let rows = gen_rows(&mut r, n, nkeys, dupfree, conf % 5 == 0 || (is_set && conf % 8 == 3));
         let mode = if is_set { "set" } else { *pick(&mut r, &["sum", "max", "min"]) };
         // input split over 1..3 files
         // (every third configuration cuts at random positions, so files may be empty - first,
@@ -112,9 +112,19 @@ pub fn c19(log: &mut Log, seed: u64, tier: &str, fst_bin: &str, work: &str) {
             std::fs::write(&p, s).unwrap();
             let out = work.join("sorted.fst");
             let _ = std::fs::remove_file(&out);
-            let st = Command::new(fst_bin).arg(if is_set { "set" } else { "map" }).arg(&p).arg(&out).arg("--sorted").output().unwrap();
-            if st.status.success() {
-                sorted_bytes = std::fs::read(&out).ok();
+            if is_set && srows.iter().any(|(k, _)| k.is_empty()) {
+                // `fst set --sorted` reads a blank line as the end of its input, so for data with the
+                // empty key the sorted build of the same data is made with the library's builder
+                let mut b = fst::SetBuilder::memory();
+                for (k, _) in &srows {
+                    b.insert(k).unwrap();
+                }
+                sorted_bytes = b.into_inner().ok();
+            } else {
+                let st = Command::new(fst_bin).arg(if is_set { "set" } else { "map" }).arg(&p).arg(&out).arg("--sorted").output().unwrap();
+                if st.status.success() {
+                    sorted_bytes = std::fs::read(&out).ok();
+                }
             }
         }
         for sd in 0..nseeds {
